@@ -6,14 +6,21 @@ The compiler's GIMPLE (-O0) of the working-tree src/cmb_dataset.c is executed sy
 sympy (gsym_ext.XExecutor on top of /verif/realarith/gsym.py) with CONCRETE dsp->count = N and lag
 count n and SYMBOLIC samples x0..x{N-1}.  The input object is produced by executing the real
 cmb_dataset_initialize, then count = cursize = N and xa -> array of N real symbols; acf -> array
-of n+1 undefined cells.  The only branches that fork are `var < 1e-9` and the two halves of the
-debug assertion `(acf[ulag] >= -1.0) && (acf[ulag] <= 1.0)` (abort paths via cmi_assert_failed).
+of n+1 undefined cells.  The only branches that fork are the variance guard and the two halves of
+the debug assertion `(acf[ulag] >= -1.0) && (acf[ulag] <= 1.0)` (abort paths via cmi_assert_failed).
+
+The variance guard is read off the path conditions: it is the conjunct that compares the local `var`
+with a number eps.  The repaired library has `if (!(var > 0.0))`, i.e. eps = 0 and the dividing
+('high') path carries `var > 0`; the former `if (var < min_acf_variance)` / `if (var < 1e-9)` gives
+eps = 1e-9 and `var >= 1e-9` on the dividing path.  Both forms are executed; an absolute threshold
+(eps > 0) is not an extraction break but a failed obligation of C18.O5.acf_scale.
 
 Groups:  C18.O5.acf_lag0   acf[0] == 1, indices in bounds, divisors non-zero, acf[k] == definition,
-                           near-constant data -> 0 (pinned)
+                           constant data -> 0 (pinned)
          C18.O5.acf_range  can the debug assertion -1 <= acf[k] <= 1 fail? (N = 4, every legal lag)
          C18.O5.acf_shift  ACF(x + s) == ACF(x), var(x + s) == var(x)
-         C18.O5.acf_scale  ACF(c x) == ACF(x) for c > 0; the branch depends on c (known defect (e))
+         C18.O5.acf_scale  ACF(c x) == ACF(x) for c > 0; the branch taken does not depend on c (proved when
+                           the guard compares with 0; an absolute threshold fails with a witness: defect (e))
 
 What is dropped: double arithmetic is real arithmetic; N and n are fixed small integers (N = 4,
 n = 2; n = 3 for acf_range), so this is a proof for those sizes only.
@@ -178,6 +185,10 @@ class Run(object):
     def __init__(self, cx, cells, n):
         N = len(cells)
         self.N, self.n, self.cells = N, n, list(cells)
+        try:
+            self.fn_line = int(cx.table[FUNC].stmts[0].line)
+        except Exception:
+            self.fn_line = 0
         st = gx.XState()
         st.new_object('ds#1', {'__undef__': True})
         good = [o for o in cx.ex.run(INIT, [vptr('ds#1')], st) if not o.aborted]
@@ -192,28 +203,69 @@ class Run(object):
         d['cursize'] = vint(N)
         d['xa'] = gx.aptr('xa#1')
         self.outs = cx.ex.run(FUNC, [vptr('ds#1'), vint(n), gx.aptr('acf#1')], st)
-        self.var = self.eps = None
+        self.var = self.eps = self.strict = self.eps_name = None
         self.paths = []
         for o in self.outs:
             nm = o.state.named
-            if (FUNC, 'var') not in nm or (FUNC, 'min_acf_variance') not in nm:
+            if (FUNC, 'var') not in nm:
                 self.paths.append(Path(o, 'early', 'acf#1'))      # precondition abort
                 continue
-            var, eps = nm[(FUNC, 'var')].e, nm[(FUNC, 'min_acf_variance')].e
+            var = nm[(FUNC, 'var')].e
+            gd = guard_conjunct(o.state.pc, var)
+            if gd is None:
+                raise ExtractionBreak('path is not classified by a comparison of `var` with a constant: pc = %s'
+                                      % short(o.state.pc))
+            op, eps = gd
+            # new code: `!(var > 0.0)`           -> 'var <= 0' (low) | 'var > 0' (high): strict, eps = 0
+            # old code: `var < min_acf_variance` -> 'var < eps' (low) | 'var >= eps' (high): not strict, eps = 1e-9
+            br = 'high' if op in ('>', '>=') else 'low'
+            strict = op in ('>', '<=')
             if self.var is None:
-                self.var, self.eps = var, eps
-            elif self.var != var or self.eps != eps:
-                raise ExtractionBreak('var differs between paths')
-            lt = sp.Lt(var, eps)
-            if lt is sp.true or lt in o.state.pc:
-                br = 'low'
-            elif lt is sp.false or sp.Not(lt) in o.state.pc:
-                br = 'high'
-            else:
-                raise ExtractionBreak('path is not classified by `var < min_acf_variance`: pc = %s' % short(o.state.pc))
+                self.var, self.eps, self.strict = var, eps, strict
+                named = nm.get((FUNC, 'min_acf_variance'))
+                if named is not None and named.e == eps:
+                    self.eps_name = 'min_acf_variance'
+            elif self.var != var or self.eps != eps or self.strict != strict:
+                raise ExtractionBreak('var or the variance guard differs between paths')
             self.paths.append(Path(o, br, 'acf#1'))
         if self.var is None:
             raise ExtractionBreak('no path of %s reaches the variance' % FUNC)
+        self.line_var = self.trace_line('var') or 615
+        # the guard is the statement after the last one executed before it (acf[0] = 1.0, or the named threshold)
+        self.line_guard = (self.trace_line(self.eps_name or 'acf[0]') or self.line_var + 2) + 1
+
+    def trace_line(self, lhs):
+        for p in self.paths:
+            for t in p.state.trace:
+                if t[0] == lhs and t[2] == FUNC:
+                    try:
+                        return int(t[3])
+                    except (TypeError, ValueError):
+                        return 0
+        return 0
+
+    def first_line(self):
+        """line of the first statement of the function (the first precondition assertion)."""
+        if self.fn_line:
+            return self.fn_line
+        for p in self.paths:
+            for t in p.state.trace:
+                if t[2] == FUNC and str(t[3]).isdigit():
+                    return int(t[3])
+        return 0
+
+    # ---- the variance guard, as found in the path conditions
+    def eps_txt(self):
+        return '0' if self.eps == 0 else ('%g' % float(self.eps)).replace('e-0', 'e-')
+
+    def hi_txt(self):
+        return 'var %s %s' % ('>' if self.strict else '>=', self.eps_txt())
+
+    def lo_txt(self):
+        return ('!(var > %s)' if self.strict else 'var < %s') % self.eps_txt()
+
+    def in_high(self, v):
+        return bool(v > self.eps) if self.strict else bool(v >= self.eps)
 
     def good(self, branch):
         return [p for p in self.paths if p.branch == branch and not p.aborted]
@@ -223,7 +275,10 @@ class Run(object):
 
     def path_at(self, pt):
         """the path whose condition holds at the rational point pt."""
-        hit = [p for p in self.paths if pc_holds(p.state.pc, pt)]
+        try:
+            hit = [p for p in self.paths if pc_holds(p.state.pc, pt)]
+        except (TypeError, ValueError, ZeroDivisionError) as e:        # e.g. 0/0 in a conjunct at this point
+            raise ExtractionBreak('path conditions cannot be evaluated at %s: %s' % (pt, e))
         if len(hit) != 1:
             raise ExtractionBreak('%d paths hold at %s' % (len(hit), pt))
         return hit[0]
@@ -236,6 +291,41 @@ class Run(object):
                 if a[0] == obj and a[1] == idx and a[3] == kind:
                     return a[5]
         return 0
+
+
+OPS = {sp.StrictGreaterThan: '>', sp.GreaterThan: '>=', sp.StrictLessThan: '<', sp.LessThan: '<='}
+FLIP = {'>': '<', '>=': '<=', '<': '>', '<=': '>='}
+
+
+def guard_conjunct(pc, var):
+    """the conjunct of the path condition that compares `var` with a number -> (op, eps) meaning `var op eps`, or None.
+    gsym gives Gt(var, 0) / Le(var, 0) for `!(var > 0.0)` and its negation, Lt(var, eps) / Ge(var, eps) for `var < eps`."""
+    for p in pc:
+        op = OPS.get(type(p))
+        if op is None:
+            continue
+        if p.lhs == var and p.rhs.is_number:
+            return op, p.rhs
+        if p.rhs == var and p.lhs.is_number:
+            return FLIP[op], p.lhs
+    return None
+
+
+def scale_free(eps, strict):
+    """is the guard `v > eps` (strict) / `v >= eps` invariant under v -> c^2 v for EVERY real v and c > 0?
+    Decided by sympy's assumption system on w = v - eps: (w > 0 => c^2 (w + eps) - eps > 0) and
+    (w <= 0 => c^2 (w + eps) - eps <= 0); likewise with >= / <.  True exactly when this is derivable, which it is
+    for eps = 0 (c^2 w has the sign of w) and is not for eps > 0 (where it is false)."""
+    c = sp.Symbol('c', positive=True)
+    if strict:
+        wh, wl = sp.Symbol('w', positive=True), sp.Symbol('w', nonpositive=True)
+        a = (c ** 2 * (wh + eps) - eps).is_positive
+        b = (c ** 2 * (wl + eps) - eps).is_nonpositive
+    else:
+        wh, wl = sp.Symbol('w', nonnegative=True), sp.Symbol('w', negative=True)
+        a = (c ** 2 * (wh + eps) - eps).is_nonnegative
+        b = (c ** 2 * (wl + eps) - eps).is_negative
+    return a is True and b is True
 
 
 def xsyms(N):
@@ -254,7 +344,7 @@ def oracle(xs, k):
 def only_high(g, run, what):
     hi = run.good('high')
     if len(hi) != 1:
-        g.ob('%s: exactly one non-aborting path with var >= 1e-9' % what, False, 610,
+        g.ob('%s: exactly one non-aborting path with %s' % (what, run.hi_txt()), False, run.line_guard,
              detail={'paths': len(hi)})
         return None
     return hi[0]
@@ -329,14 +419,15 @@ def g_lag0(cx):
     N, n = N_MAIN, LAGS_MAIN
     xs = xsyms(N)
     run = cx.run(('x', N, n), xs, n)
-    l0 = run.line_of('acf#1', 0) or 608
-    lk = run.line_of('acf#1', 1, branch='high') or 627
+    l0 = run.line_of('acf#1', 0) or run.line_guard - 1
+    lk = run.line_of('acf#1', 1, branch='high') or run.line_guard + 17
 
     # paths
     good = [p for p in run.paths if not p.aborted]
     early = [p for p in run.paths if p.branch == 'early']
     g.ob('no precondition assertion of cmb_dataset_ACF is reachable for an initialised dataset with count = %d, n = %d' % (N, n),
-         not early, 589, detail=[('abort', str(p.state.abort)) for p in early])
+         not early, (early[0].state.abort[2] if early and early[0].state.abort else run.first_line()),
+         detail=[('abort', str(p.state.abort)) for p in early])
     bad0 = [p for p in good if p.acf.get(0) != 1]
     g.ob('acf[0] == 1 on every non-aborting path (%d paths, N = %d, n = %d)' % (len(good), N, n),
          bool(good) and not bad0, l0, trace=bad0[0].state.trace if bad0 else None,
@@ -351,7 +442,7 @@ def g_lag0(cx):
     nx = len({(a[1], a[5]) for a in acc if a[0] == 'xa#1'})
     na = len({(a[1], a[5]) for a in acc if a[0] == 'acf#1'})
     g.ob('every index into dsp->xa is < count (%d distinct index/line pairs on all %d paths)' % (nx, len(run.paths)),
-         nx > 0 and not xa_bad, xa_bad[0][5] if xa_bad else 601,
+         nx > 0 and not xa_bad, xa_bad[0][5] if xa_bad else run.line_of('xa#1', 0, kind='load'),
          detail=[('out of bounds', '%s xa[%d], count %d, line %d' % (a[3], a[1], a[2], a[5])) for a in xa_bad])
     g.ob('every index into acf is <= n (%d distinct index/line pairs on all %d paths)' % (na, len(run.paths)),
          na > 0 and not acf_bad and not other, acf_bad[0][5] if acf_bad else lk,
@@ -369,25 +460,29 @@ def g_lag0(cx):
                 continue
             ok = False
             for c in p.state.pc:
-                if isinstance(c, (sp.Ge, sp.Gt)) and c.rhs.is_number and c.rhs > 0 and sp.expand(c.lhs - e) == 0:
-                    ok = True       # e >= eps > 0 is a conjunct of the path condition
+                if not (isinstance(c, (sp.Ge, sp.Gt)) and c.rhs.is_number and sp.expand(c.lhs - e) == 0):
+                    continue
+                # e > r with r >= 0, or e >= r with r > 0, is a conjunct of the path condition: e != 0
+                if (isinstance(c, sp.Gt) and c.rhs >= 0) or (isinstance(c, sp.Ge) and c.rhs > 0):
+                    ok = True
             if not ok:
                 fails.append(('divisor not shown non-zero under the path condition', 'line %d: %s' % (d[2], short(e, 200))))
+    why = '%s%s is a conjunct of the path condition' % (run.hi_txt(), '' if run.strict or run.eps <= 0 else ' > 0')
     g.ob('every real divisor met is non-zero under the path condition (ui + 1, count - 1, ustop concrete; '
-         'var >= 1e-9 > 0 on the path that divides by var; %d divisions on %d paths)' % (nd, len(run.paths)),
-         nd > 0 and not fails, 627, detail=fails[:6])
+         '%s on the path that divides by var; %d divisions on %d paths)' % (why, nd, len(run.paths)),
+         nd > 0 and not fails, lk, detail=fails[:6])
 
-    # definition on var >= eps
+    # definition on the dividing path
     hi = only_high(g, run, 'definition')
     mean = sp.Add(*xs) / N
     varref = sp.Add(*[(x - mean) ** 2 for x in xs]) / (N - 1)
     okv, wv = is_zero(run.var - varref)
-    g.ob('var equals the sample variance sum (x_i - mean)^2 / (N - 1) of the definition (N = %d)' % N, okv, 606,
+    g.ob('var equals the sample variance sum (x_i - mean)^2 / (N - 1) of the definition (N = %d)' % N, okv, run.line_var,
          detail=wv if isinstance(wv, dict) else {'note': str(wv)})
     if hi is not None:
         for k in range(1, n + 1):
             if k not in hi.acf:
-                g.ob('acf[%d] is written on the path var >= 1e-9' % k, False, lk, trace=hi.state.trace)
+                g.ob('acf[%d] is written on the path %s' % (k, run.hi_txt()), False, lk, trace=hi.state.trace)
                 continue
             ok, w = is_zero(hi.acf[k] - oracle(xs, k))
             det = {'code': short(norm(hi.acf[k]), 300), 'definition': short(norm(oracle(xs, k)), 300)}
@@ -395,15 +490,16 @@ def g_lag0(cx):
                 det.update({'counterexample': w['point'], 'residual value there': w['value'], 'residual': w['residual']})
             elif w:
                 det['note'] = str(w)
-            g.ob('on the path var >= 1e-9 the code\'s acf[%d] equals r_%d = [sum_{i<N-%d} (x_i - mean)(x_{i+%d} - mean) / (N - %d)]'
-                 ' / [sum (x_i - mean)^2 / (N - 1)] (N = %d)' % (k, k, k, k, k, N), ok, lk,
+            g.ob('on the path %s the code\'s acf[%d] equals r_%d = [sum_{i<N-%d} (x_i - mean)(x_{i+%d} - mean) / (N - %d)]'
+                 ' / [sum (x_i - mean)^2 / (N - 1)] (N = %d)' % (run.hi_txt(), k, k, k, k, k, N), ok, lk,
                  trace=hi.state.trace, detail=det)
 
-    # pinned: var < eps -> 0
+    # pinned: the other side of the guard -> 0
     lo = run.good('low')
     okl = len(lo) == 1 and all(lo[0].acf.get(k) == 0 for k in range(1, n + 1)) and lo[0].acf.get(0) == 1
-    g.ob('near-constant data: coefficients reported as 0 (pinned behaviour: on the path var < 1e-9 acf[k] == 0 for k = 1..%d, '
-         'a warning is logged, nothing else changes)' % n, okl, run.line_of('acf#1', 1, branch='low') or 616,
+    g.ob('%s data: coefficients reported as 0 (pinned behaviour: on the path %s acf[k] == 0 for k = 1..%d, '
+         'a warning is logged, nothing else changes)' % ('constant' if run.eps == 0 else 'near-constant', run.lo_txt(), n),
+         okl, run.line_of('acf#1', 1, branch='low') or run.line_guard + 6,
          trace=lo[0].state.trace if lo else None, detail={'paths': len(lo), 'acf': str(lo[0].acf) if lo else ''})
     g.reason = ''
     return g.done()
@@ -448,7 +544,7 @@ def g_range(cx):
     xs = xsyms(N)
     run = cx.run(('x', N, n), xs, n)
     hi = only_high(g, run, 'range')
-    aline = 628
+    aline = (run.line_of('acf#1', 1, branch='high') or run.line_guard + 17) + 1
     ab = [p for p in run.aborts('high') if p.state.abort and p.state.abort[2]]
     if ab:
         aline = ab[0].state.abort[2]
@@ -462,12 +558,14 @@ def g_range(cx):
     found = {}
     for pt in candidate_points(xs):
         v = varn.subs(pt)
-        if not (v >= run.eps):
+        if not run.in_high(v):
             continue
         for k, e in exprs.items():
             if k in found:
                 continue
             a = e.subs(pt)
+            if not (a.is_number and a.is_real and a.is_finite):
+                continue
             if a > 1 or a < -1:
                 found[k] = (pt, a, v)
         if len(found) == len(exprs):
@@ -490,7 +588,7 @@ def g_range(cx):
             conf = p.aborted and ASSERT_TEXT.replace(' ', '') in str(p.state.abort[3]).replace(' ', '')
             x = [str(pt[s]) for s in xs]
             det = [('witness x', '(%s)' % ', '.join(x)), ('count', str(N)), ('n', str(n)), ('lag', str(k)),
-                   ('var(x)', '%s = %.6g (>= 1e-9: the dividing path)' % (v, fl(v))),
+                   ('var(x)', '%s = %.6g (%s: the dividing path)' % (v, fl(v), run.hi_txt())),
                    ('acf[%d]' % k, '%s = %.6g' % (a, fl(a))),
                    ('path of the real code at the witness', 'ABORT %s' % (p.state.abort,) if p.aborted else 'no abort'),
                    ('quadratic forms', 'var - P_k PSD: %s, var + P_k PSD: %s' % (up, dn))]
@@ -526,7 +624,7 @@ def g_range(cx):
 
 # =========================================================================== C18.O5.acf_shift
 def pair_outputs(g, a, b, n, what, line):
-    """outputs of the two runs on the path pair (both var >= 1e-9) identical."""
+    """outputs of the two runs on the path pair (both on the dividing side of the variance guard) identical."""
     ha, hb = only_high(g, a, what), only_high(g, b, what)
     if ha is None or hb is None:
         return
@@ -540,7 +638,7 @@ def pair_outputs(g, a, b, n, what, line):
             det.update({'counterexample': w['point'], 'difference there': w['value']})
         elif w:
             det['note'] = str(w)
-        g.ob('%s: acf[%d] identical on the path pair (both var >= 1e-9)' % (what, k), ok, line, trace=hb.state.trace, detail=det)
+        g.ob('%s: acf[%d] identical on the path pair (both %s)' % (what, k, a.hi_txt()), ok, line, trace=hb.state.trace, detail=det)
 
 
 def g_shift(cx):
@@ -551,9 +649,9 @@ def g_shift(cx):
     a = cx.run(('x', N, n), xs, n)
     b = cx.run(('x+s', N, n), [x + s for x in xs], n)
     ok, w = is_zero(b.var - a.var)
-    g.ob('var(x+s) == var(x) (so x and x + s always take the same branch of `var < 1e-9`)', ok, 606,
+    g.ob('var(x+s) == var(x) (so x and x + s always take the same branch of the guard `%s`)' % a.lo_txt(), ok, a.line_var,
          detail=w if isinstance(w, dict) else {'note': str(w)})
-    pair_outputs(g, a, b, n, 'ACF(x + s) == ACF(x)', a.line_of('acf#1', 1, branch='high') or 627)
+    pair_outputs(g, a, b, n, 'ACF(x + s) == ACF(x)', a.line_of('acf#1', 1, branch='high') or a.line_guard + 17)
     return g.done()
 
 
@@ -565,12 +663,20 @@ def g_scale(cx):
     c = sp.Symbol('c', positive=True)
     a = cx.run(('x', N, n), xs, n)
     b = cx.run(('c*x', N, n), [c * x for x in xs], n)
-    pair_outputs(g, a, b, n, 'ACF(c x) == ACF(x), c > 0', a.line_of('acf#1', 1, branch='high') or 627)
+    if (a.eps, a.strict) != (b.eps, b.strict):
+        raise ExtractionBreak('the variance guard differs between the runs on x and on c x')
+    lk = a.line_of('acf#1', 1, branch='high') or a.line_guard + 17
+    pair_outputs(g, a, b, n, 'ACF(c x) == ACF(x), c > 0', lk)
     okv, wv = is_zero(b.var - c ** 2 * a.var)
-    g.ob('var(c x) == c^2 var(x)', okv, 606, detail=wv if isinstance(wv, dict) else {'note': str(wv)})
-    # (ii) branch independence of c: search a rational witness
-    wit = None
-    base = [[0, 1, 0, 2][:N], [1, -1, 1, -1][:N], [0, 0, 1, 1][-N:], [1, 2, 3, 5][:N]]
+    g.ob('var(c x) == c^2 var(x)', okv, a.line_var, detail=wv if isinstance(wv, dict) else {'note': str(wv)})
+    # (ii) branch independence of c.
+    #  proof:   var(c x) == c^2 var(x) (above, is_zero) and c > 0; the guard `v > eps` is invariant under v -> c^2 v for
+    #           every real v exactly when eps == 0 (scale_free); then x and c x are always on the same side of the guard.
+    #  search:  rational points x and scales c whose real-code paths lie on different sides (finds the witness for an
+    #           absolute threshold eps > 0; a sanity check of the proof for eps == 0).
+    wit, same, skipped = None, 0, 0
+    base = [[0, 1, 0, 2][:N], [1, -1, 1, -1][:N], [0, 0, 1, 1][-N:], [1, 2, 3, 5][:N],
+            [sp.Rational(-7, 3), sp.Rational(5, 2), 0, sp.Rational(1, 9)][:N], [1, 1, 1, 1][:N], [0, 0, 0, 0][:N]]
     for x0 in base:
         for cval in (sp.Rational(1, 10 ** 6), sp.Rational(1, 10 ** 3), sp.Integer(10 ** 6)):
             pt = {x: sp.Rational(v) for x, v in zip(xs, x0[:N])}
@@ -579,33 +685,59 @@ def g_scale(cx):
             try:
                 pa, pb = a.path_at(pt), b.path_at(ptc)
             except ExtractionBreak:
+                skipped += 1
                 continue
-            if pa.branch != pb.branch and not pa.aborted and not pb.aborted:
+            if pa.branch == pb.branch:
+                same += 1
+            elif not pa.aborted and not pb.aborted:
                 wit = (x0[:N], cval, pt, ptc, pa, pb)
                 break
+            else:
+                skipped += 1
         if wit:
             break
-    text = 'the branch taken does not depend on the scale c (var(c x) = c^2 var(x) is compared with the ABSOLUTE constant 1e-9)'
+    proved = okv is True and scale_free(a.eps, a.strict)
+    gd = '`%s`' % a.hi_txt()
+    if a.eps == 0:
+        text = ('the branch taken does not depend on the scale c (proved: var(c x) == c^2 var(x) and c > 0, so c^2 var(x) has '
+                'the sign of var(x); the guard %s compares with 0, hence var(c x) %s 0 <=> var(x) %s 0 for every real x; '
+                'cross-checked on the real-code paths at %d rational (x, c) points)'
+                % (gd, '>' if a.strict else '>=', '>' if a.strict else '>=', same))
+    else:
+        text = ('the branch taken does not depend on the scale c (var(c x) = c^2 var(x) is compared with the ABSOLUTE constant %s%s)'
+                % (a.eps_txt(), ' = ' + a.eps_name if a.eps_name else ''))
     if wit:
         x0, cval, pt, ptc, pa, pb = wit
         oa = [fl(pa.acf[k].subs(pt)) for k in sorted(pa.acf)]
         ob = [fl(pb.acf[k].subs(ptc)) for k in sorted(pb.acf)]
+        side = lambda r, q: r.hi_txt() if q.branch == 'high' else r.lo_txt()       # noqa: E731
         det = [('witness x', str(tuple(x0))), ('witness c', '%s = %g' % (cval, fl(cval))),
-               ('var(x)', '%.6g  -> branch var %s 1e-9' % (fl(a.var.subs(pt)), '>=' if pa.branch == 'high' else '<')),
-               ('var(c x)', '%.6g  -> branch var %s 1e-9' % (fl(b.var.subs(ptc)), '>=' if pb.branch == 'high' else '<')),
+               ('var(x)', '%.6g  -> branch %s' % (fl(a.var.subs(pt)), side(a, pa))),
+               ('var(c x)', '%.6g  -> branch %s' % (fl(b.var.subs(ptc)), side(b, pb))),
                ('ACF(x)', json.dumps(oa)), ('ACF(c x)', json.dumps(ob)),
                ('known defect', '(e): scale invariance of the ACF is broken by the absolute variance threshold')]
         na = native_run(cx, n, [sp.Rational(v) for v in x0])
         nb = native_run(cx, n, [sp.Rational(v) * cval for v in x0])
-        agrees = bool(na.get('exit') == 0 and nb.get('exit') == 0 and 'WARNING' not in na.get('stdout', '')
-                      and 'WARNING' in nb.get('stdout', '') and nb.get('stdout', '').endswith('ACF 1' + ' 0' * n))
+
+        def as_branch(nat, q):      # the native run took the same side of the guard as the symbolic path q
+            out = nat.get('stdout', '')
+            if q.branch == 'low':
+                return 'WARNING' in out and out.endswith('ACF 1' + ' 0' * n)
+            return 'WARNING' not in out
+        agrees = bool(na.get('exit') == 0 and nb.get('exit') == 0 and as_branch(na, pa) and as_branch(nb, pb))
         g.native = {'ACF(x) replay': na, 'ACF(c x) replay': nb, 'agrees': agrees}
         det = det + [('native ACF(x)', na.get('stdout', na.get('error', ''))), ('native ACF(c x)', nb.get('stdout', nb.get('error', '')))]
-        g.ob(text, False, 610, trace=pb.state.trace, detail=det)
+        g.ob(text, False, a.line_guard, trace=pb.state.trace, detail=det)
         g.reason = ('known defect (e): x = %s, c = %g: ACF(x) = %s but ACF(c x) = %s' % (tuple(x0), fl(cval), oa, ob))
+    elif proved and same > 0:
+        g.ob(text, True, a.line_guard)
     else:
-        # no witness: it holds only if the comparison is scale free, which we cannot prove here
-        g.ob(text, None, 610, detail={'note': 'no witness among the candidate points; not proved'})
+        why = 'var(c x) == c^2 var(x) is not established' if okv is not True else \
+            'the guard %s is not invariant under var -> c^2 var for every c > 0 (threshold %s != 0)' % (gd, a.eps_txt())
+        if same == 0:
+            why += '; no rational point could be cross-checked on the real-code paths'
+        g.ob(text, None, a.line_guard, detail={'note': 'no witness among the %d candidate points (%d skipped) and not proved: %s'
+                                               % (same, skipped, why)})
     return g.done()
 
 
